@@ -32,9 +32,34 @@ def split_deck_below_high_second_hits(k, seed):
     return _df(rows), {'k': k, 'seed': seed, 'layout': 'split_deck_below_high_second_hits', 'ceilos': ['A', 'B'], 'rows': len(rows)}
 
 
+def synchronised_high_first_low_second(k, seed):
+    """two instruments sampling at exactly the same times: during some steps one of them has its first (or VV) hit far above MSA +
+    buffer while the other reports second / third hits at or below the limit, one of them exactly at the limit"""
+    from .scenes import _df
+    rng = random.Random(seed * 79 + k)
+    nt = rng.choice([40, 60])
+    rows = []
+    high = set(rng.sample(range(nt), nt // 3))
+    for t in range(nt):
+        dt = -30.0 * t
+        if t in high:
+            rows.append(('A', dt, 9000.0 + rng.uniform(0, 500), rng.choice([1, 1, -1])))
+        else:
+            rows.append(('A', dt, 1000.0 + rng.uniform(0, 40), 1))
+        rows.append(('B', dt, 1000.0 + rng.uniform(0, 40), 1))
+        rows.append(('B', dt, 3000.0 + rng.uniform(0, 40), 2))
+        if t % 7 == 0:
+            rows.append(('B', dt, 5500.0, 3))
+    rng.shuffle(rows)
+    return _df(rows), {'k': k, 'seed': seed, 'layout': 'synchronised_high_first_low_second', 'ceilos': ['A', 'B'], 'rows': len(rows)}
+
+
 def check(k, seed):
     rng = random.Random(seed * 13 + k)
-    if k % 6 == 4:
+    if k % 6 == 2:
+        df, desc = synchronised_high_first_low_second(k, seed)
+        prms = {'MSA': 5000, 'MSA_HIT_BUFFER': 500}
+    elif k % 6 == 4:
         df, desc = split_deck_below_high_second_hits(k, seed)
         prms = {'MSA': 10000, 'MSA_HIT_BUFFER': rng.choice([0, 1500])}
     else:
@@ -52,6 +77,19 @@ def check(k, seed):
         return desc, prms, [], type(e).__name__
     d0 = digest_tables(base)
     above = df['height'] > lim
+    # every hit at or below the limit is kept unchanged (first / VV hits above it become non-detections, higher ones are removed)
+    src = df.reset_index(drop=True)
+    exp = []
+    for c, t, h, ty in zip(src['ceilo'], src['dt'], src['height'], src['type']):
+        if not (h == h and h > lim):
+            exp.append((str(c), float(t), float(h), int(ty)))
+        elif ty <= 1:
+            exp.append((str(c), float(t), float('nan'), 0))
+    got = [(str(c), float(t), float(h), int(ty)) for c, t, h, ty in zip(base.data['ceilo'], base.data['dt'], base.data['height'], base.data['type'])]
+    same = len(got) == len(exp) and all(g[0] == e[0] and g[1] == e[1] and g[3] == e[3] and (g[2] == e[2] or (g[2] != g[2] and e[2] != e[2]))
+                                        for g, e in zip(got, exp))
+    if not same:
+        fails.append(f'hits at or below the limit {lim} were lost or altered: {len(exp)} rows expected in chunk.data, {len(got)} found')
     # (1) other heights above the limit
     df1 = df.copy()
     df1.loc[above, 'height'] = lim + 1 + np.array([rng.uniform(0, 40000) for _ in range(int(above.sum()))])
